@@ -135,6 +135,9 @@ package fox
 //@ -- the wildcard opened by the '{' at k is well formed and closed before position lim
 //@ pred closedWild(u string, k int, endHost int, maxKey int, lim int) = nextClose(u, k) < lim && nextClose(u, k) < len(u) && nextClose(u, k) >= k+2 && nextClose(u, k) - k - 1 <= maxKey && (forall m int :: {u[m]} k < m && m < nextClose(u, k) ==> nameChar(u, k, m, endHost)) && (nextClose(u, k)+1 == len(u) || u[nextClose(u, k)+1] == '/' || (k < endHost && u[nextClose(u, k)+1] == '.'))
 
+//@ -- the documented grammar of a path-only pattern (declarative; used for the completeness direction)
+//@ pred validPath(u string, maxP int, maxK int) = len(u) > 0 && u[0] == '/' && (forall i int :: {u[i]} 0 <= i && i < len(u) && u[i] == '*' ==> i+1 < len(u) && u[i+1] == '{') && (forall i int :: {u[i]} 0 <= i && i < len(u) && u[i] == '{' ==> closedWild(u, i, 0, maxK, len(u))) && (forall i int :: {cnt(u, i)} 0 <= i && i <= len(u) ==> cnt(u, i) <= maxP) && (forall i int :: {u[i]} 0 <= i && i < len(u) && u[i] == '*' && prevKind(u, i) == 2 ==> staticSince(u, i) >= 2)
+
 //@ func (*Router).parseRoute props C10
 //@   requires fox != nil
 //@   replay-input maxParams = fox.maxParams
@@ -176,3 +179,6 @@ package fox
 //@   loop 1: invariant labels: forall k int :: {url[k]} 0 < k && k < endHost && k < (state == stateDefault ? i : startParam) && !inside(url, k) && url[k] == '.' ==> partAt(url, k) <= 63
 //@   loop 1: invariant total: totallen + partlen == hostLen(url, min(i, endHost))
 //@   loop 1: decreases len(url) + 1 - i
+//@   behavior complete
+//@   requires validPath(url, fox.maxParams, fox.maxParamKeyBytes)
+//@   ensures accepted: result2 == nil
